@@ -1,4 +1,5 @@
 -- All property files that are complete (no `sorry`). `setup_cmd` builds this.
+import JS.Props.C01
 import JS.Props.C03
 import JS.Props.C04
 import JS.Props.C06
